@@ -117,7 +117,9 @@ var pool = []string{"alpha.test", "beta.test", "gamma.example", "mail.alpha.test
 const letters = "abcdefghijklmnopqrstuvwxyz"
 
 func pickList(r *fw.Rand) []string {
-	n := r.Weighted([]int{2, 3, 3, 2, 1})
+	// up to a dozen entries (longer lists after seeded change C05-9: every entry of a list counts,
+	// not only the first few)
+	n := []int{0, 1, 2, 3, 4, 6, 7, 9, 12}[r.Weighted([]int{4, 6, 6, 4, 2, 2, 2, 1, 1})]
 	var l []string
 	for j := 0; j < n; j++ {
 		d := r.Pick(pool)
@@ -193,7 +195,7 @@ func genPattern(r *fw.Rand) string {
 func genModel(r *fw.Rand) *policyModel {
 	m := &policyModel{DefAccept: r.Bool(), DefStore: r.Bool(), Max: []int{1, 2, 5}[r.Intn(3)]}
 	m.Accept, m.Reject, m.Store, m.Discard = pickList(r), pickList(r), pickList(r), pickList(r)
-	np := r.Weighted([]int{3, 4, 3, 2})
+	np := []int{0, 1, 2, 3, 6, 8}[r.Weighted([]int{6, 8, 6, 4, 2, 1})]
 	for j := 0; j < np; j++ {
 		// half template patterns, half composed ones (any arrangement of the grammar, see patterns.go)
 		if r.Bool() {
